@@ -333,3 +333,22 @@ T('C06', 'mst-noisy-helper', [(MST, "        y = x + np.random.normal(loc=0, sca
 T('C06', 'aim-renamed-locals', [(AIM, "            x = data.project(cl).datavector()\n            y = x + self.gaussian_noise(sigma, n)\n            measurements.append((Q, y, sigma, cl))", "            truth = data.project(cl).datavector()\n            noisy = truth + self.gaussian_noise(sigma, n)\n            y = noisy\n            measurements.append((Q, y, sigma, cl))")])
 T('C06', 'mst-rng-alias', [(MST, "        y = x + np.random.normal(loc=0, scale=sigma/wgt, size=x.size)", "        rng = np.random\n        y = x + rng.normal(loc=0, scale=sigma/wgt, size=x.size)")])
 K('C18', 'rg-feasibility-relative', [(RG, "        return 0 if count==0 else ans/count", "        return 0 if count==0 else ans/(count*self.total)")], 'feasibility-form')
+
+# ------------------------------------------------------------------ C05
+K('C05', 'mst-sigma-too-small', [(MST, "    sigma = np.sqrt(3/(2*rho))", "    sigma = np.sqrt(1/(2*rho))")], 'budget')
+K('C05', 'mst-select-half-budget', [(MST, "    cliques = select(data, rho/3.0, log1)", "    cliques = select(data, rho/2.0, log1)")], 'budget')
+K('C05', 'mst-coef-one', [(MST, "    coef = 1.0 if monotonic else 0.5", "    coef = 1.0")], 'budget')
+K('C05', 'mwem-bounded-sens-one', [(MWEM, "        marginal_sensitivity = np.sqrt(2) if bounded else 1.0", "        marginal_sensitivity = 1.0")], 'budget')
+K('C05', 'mwem-bounded-not-forwarded', [(MWEM, "ax = worst_approximated(workload_answers, est, candidates, exp_eps, bounded=bounded)", "ax = worst_approximated(workload_answers, est, candidates, exp_eps)")], 'budget')
+K('C05', 'ag-step3-no-sqrt-count', [(AG, "    step3_sigma = np.sqrt(len(step2_queries)) * np.sqrt(0.5 / rho_step_3)", "    step3_sigma = np.sqrt(0.5 / rho_step_3)")], 'budget')
+K('C05', 'aim-sigma-halved-before-release', [(AIM, "            rho_used += 1.0/8 * epsilon**2 + 0.5/sigma**2\n", "            rho_used += 1.0/8 * epsilon**2 + 0.5/sigma**2\n            sigma /= 2\n")], 'ledger-charge')
+K('C05', 'aim-guard-half', [(AIM, "            if self.rho - rho_used < 2*(0.5/sigma**2 + 1.0/8 * epsilon**2):", "            if self.rho - rho_used < 0.5*(0.5/sigma**2 + 1.0/8 * epsilon**2):")], 'ledger-guard')
+K('C05', 'mst-extra-release', [(MST, "        Q = sparse.eye(x.size)\n        measurements.append( (Q, y, sigma/wgt, proj) )", "        Q = sparse.eye(x.size)\n        y2 = x + np.random.normal(loc=0, scale=sigma/wgt, size=x.size)\n        measurements.append( (Q, 0.5*(y+y2), sigma/wgt, proj) )")], 'budget')
+K('C05', 'aim-stale-round-cost', [(AIM, "        t = 0\n        terminate = False", "        t = 0\n        round_cost = 1.0/8 * epsilon**2 + 0.5/sigma**2\n        terminate = False"),
+                                   (AIM, "            rho_used += 1.0/8 * epsilon**2 + 0.5/sigma**2\n", "            rho_used += round_cost\n")], None)
+K('C05', 'mwem-selection-uses-l2-sens', [(MWEM, "ax = worst_approximated(workload_answers, est, candidates, exp_eps, bounded=bounded)", "ax = worst_approximated(workload_answers, est, candidates, exp_eps, bounded=False)")], 'budget')
+K('C05', 'aim-final-round-overspends', [(AIM, "                sigma = np.sqrt(1 / (2*0.9*remaining))", "                sigma = np.sqrt(1 / (2*0.9*self.rho))")], 'ledger-guard')
+K('C05', 'ag-release-unnormalised-query', [(AG, "            y = Q @ mu + np.random.normal(loc=0, scale=step1_sigma, size=Q.shape[0])", "            y = Q @ mu + np.random.normal(loc=0, scale=step1_sigma/2, size=Q.shape[0])")], 'budget')
+T('C05', 'mst-sigma-respelled', [(MST, "    sigma = np.sqrt(3/(2*rho))", "    sigma = (1.5/rho)**0.5")])
+T('C05', 'aim-charge-split', [(AIM, "            rho_used += 1.0/8 * epsilon**2 + 0.5/sigma**2\n", "            rho_used += 1.0/8 * epsilon**2\n            rho_used += 0.5/sigma**2\n")])
+T('C05', 'mwem-sigma-respelled', [(MWEM, "        sigma = np.sqrt(0.5 / (alpha*rho_per_round))", "        sigma = np.sqrt(1 / (2*alpha*rho_per_round))")])
